@@ -431,9 +431,13 @@ impl Lifecycle {
                 let message_id = match message_id_arg {
                     Some(a) => {
                         if a.is_big_endian {
-                            u32::from_be_bytes(a.payload_raw.get(0..4).unwrap().try_into().unwrap())
+                            a.payload_raw
+                                .get(0..4)
+                                .map_or(0, |b| u32::from_be_bytes(b.try_into().unwrap()))
                         } else {
-                            u32::from_le_bytes(a.payload_raw.get(0..4).unwrap().try_into().unwrap())
+                            a.payload_raw
+                                .get(0..4)
+                                .map_or(0, |b| u32::from_le_bytes(b.try_into().unwrap()))
                         }
                     }
                     None => 0,
